@@ -99,6 +99,71 @@ def mutations(rng, data, quick):
     yield ("junk-appended", data + bytes(rng.randrange(256) for _ in range(100)))
 
 
+def field_extremes(kind, data):
+    """structured faults: a VALID container / record file in which one header field holds an extreme
+    value (the formats allow them; a random byte flip almost never produces them): yields (label, bytes)"""
+    import struct
+    if kind == "tar" and len(data) >= 512:
+        def with_field(off, ln, raw):
+            h = bytearray(data[:512])
+            h[off:off + ln] = raw.ljust(ln, b"\0")[:ln]
+            h[148:156] = b" " * 8
+            h[148:156] = ("%06o\0 " % (sum(h) & 0o777777)).encode()
+            return bytes(h) + data[512:]
+        b256 = lambda v, ln: bytes([0x80]) + v.to_bytes(ln - 1, "big")
+        for name, v in (("2^31", 1 << 31), ("2^33", 1 << 33), ("chrono-max+1", 8210266876800), ("2^62", 1 << 62), ("2^63-1", (1 << 63) - 1),
+                        ("2^63", 1 << 63), ("2^64-1", (1 << 64) - 1)):
+            yield ("tar-mtime-base256-%s" % name, with_field(136, 12, b256(v, 12)))
+        yield ("tar-mtime-octal-max", with_field(136, 12, b"77777777777\0"))
+        yield ("tar-mtime-garbage", with_field(136, 12, b"9z9z9z9z9z9\0"))
+        yield ("tar-mtime-negative-base256", with_field(136, 12, b"\xff" * 12))
+        for name, v in (("2^33", 1 << 33), ("2^63-1", (1 << 63) - 1), ("2^64-1", (1 << 64) - 1)):
+            yield ("tar-size-base256-%s" % name, with_field(124, 12, b256(v, 12)))
+        yield ("tar-size-octal-max", with_field(124, 12, b"77777777777\0"))
+        yield ("tar-size-garbage", with_field(124, 12, b"12x45678901\0"))
+        yield ("tar-uid-base256", with_field(108, 8, b256((1 << 55) - 1, 8)))
+        yield ("tar-typeflag-unknown", with_field(156, 1, b"Z"))
+        yield ("tar-name-no-nul-100", with_field(0, 100, b"n" * 100))
+    if kind == "gz" and len(data) >= 18:
+        def hdr(mtime=None, flg=None, xfl=None, osb=None):
+            h = bytearray(data)
+            if mtime is not None:
+                h[4:8] = struct.pack("<I", mtime)
+            if flg is not None:
+                h[3] = flg
+            if xfl is not None:
+                h[8] = xfl
+            if osb is not None:
+                h[9] = osb
+            return bytes(h)
+        for v in (1, 0x7FFFFFFF, 0x80000000, 0xFFFFFFFF):
+            yield ("gz-mtime-%#x" % v, hdr(mtime=v))
+        for v in (0x20, 0x40, 0x80, 0xE0):
+            yield ("gz-flg-reserved-%#x" % v, hdr(flg=v))
+        yield ("gz-flg-fextra-without-field", hdr(flg=0x04))
+        yield ("gz-flg-fname-without-nul", hdr(flg=0x08))
+        for v in (0, 1, 0x7FFFFFFF, 0xFFFFFFFF):
+            yield ("gz-isize-%#x" % v, data[:-4] + struct.pack("<I", v))
+        yield ("gz-crc-wrong", data[:-8] + b"\0\0\0\0" + data[-4:])
+    if kind == "utmp" and len(data) >= 384 and len(data) % 384 == 0:
+        nrec = len(data) // 384
+        def rec_with(i, off, raw):
+            b = bytearray(data)
+            b[384 * i + off: 384 * i + off + len(raw)] = raw
+            return bytes(b)
+        for i in sorted(set([0, nrec // 2, nrec - 1])):
+            for v in (-1, -32768, 32767, 0x7F00, 9, 255):
+                yield ("utmp-rec%d-ut_type=%d" % (i, v), rec_with(i, 0, struct.pack("<h", v)))
+            for v in (-1, -(1 << 31), (1 << 31) - 1, 0):
+                yield ("utmp-rec%d-tv_sec=%d" % (i, v), rec_with(i, 340, struct.pack("<i", v)))
+            for v in (-1, 1000000, (1 << 31) - 1):
+                yield ("utmp-rec%d-tv_usec=%d" % (i, v), rec_with(i, 344, struct.pack("<i", v)))
+            yield ("utmp-rec%d-pid=-1" % i, rec_with(i, 4, struct.pack("<i", -1)))
+            yield ("utmp-rec%d-strings-without-nul" % i, rec_with(i, 8, b"L" * 32 + b"I" * 4 + b"U" * 32 + b"H" * 256))
+            yield ("utmp-rec%d-strings-high-bytes" % i, rec_with(i, 44, b"\xff\xfe\x80" * 10 + b"\0\0"))
+            yield ("utmp-rec%d-addr-garbage" % i, rec_with(i, 348, b"\xff" * 16))
+
+
 def one(job):
     d, files, idx = job
     t0 = time.time()
@@ -153,6 +218,10 @@ def run(ctx):
     for sfx, data, kind in bases:
         for label, mut in mutations(rng, data, quick):
             add("victim" + sfx, mut, label, kind, with_co=False if rng.random() < 0.5 else True)
+        # extreme values in header fields of an otherwise valid file (both alone and beside valid sources)
+        for label, mut in field_extremes(kind, data):
+            add("victim" + sfx, mut, label, kind + "-field", with_co=False)
+            add("victim" + sfx, mut, label, kind + "-field", with_co=True)
     # random byte strings of assorted lengths under every suffix
     suffixes = [b[0] for b in bases] + [".log.lz4", ".tar.gz", ".evtx.xz", ".journal.bz2", ".utmp", ".lastlog", ".acct", ".pacct", ".btmpx", ""]
     for sfx in suffixes:
@@ -234,7 +303,7 @@ def run(ctx):
     distinct = len(set((m["kind"], m["label"], m["co"], m["pos"]) for m in meta))
     ctx.coverage.update(
         evaluations=len(jobs), distinct_nontrivial=distinct,
-        rule="fault enumeration on the hooked release-like s4 binary: for each valid base file (text, gz, bz2, xz, tar, utmp(+gz,lz4), evtx(+gz), journal(+gz,lz4)) truncation at offset classes (all offsets for small files), 1-16 byte corruptions in magic/header/trailer/payload, zeroed/0xFF header, doubled, junk appended; random byte strings of assorted lengths under every recognised suffix; valid content under every mismatching suffix; text files of lines sampled from each datetime pattern row's own regular expression (all 173 rows) and corpus witnesses; about half of the runs beside 1-3 valid text sources at a random argument position; every case is a damaged or mis-typed input, distinct by (kind, mutation, co-sources, position)",
+        rule="(since the extension round also: extreme values in tar / gzip header fields and utmp record fields of otherwise valid files) fault enumeration on the hooked release-like s4 binary: for each valid base file (text, gz, bz2, xz, tar, utmp(+gz,lz4), evtx(+gz), journal(+gz,lz4)) truncation at offset classes (all offsets for small files), 1-16 byte corruptions in magic/header/trailer/payload, zeroed/0xFF header, doubled, junk appended; random byte strings of assorted lengths under every recognised suffix; valid content under every mismatching suffix; text files of lines sampled from each datetime pattern row's own regular expression (all 173 rows) and corpus witnesses; about half of the runs beside 1-3 valid text sources at a random argument position; every case is a damaged or mis-typed input, distinct by (kind, mutation, co-sources, position)",
         samples=[dict(meta[i], rc=results[i][0]) for i in (0, len(meta) // 3, len(meta) // 2, len(meta) - 1)],
         by_kind=hist, failures=bad, bound_s=BOUND,
         exit_status_histogram={str(k): sum(1 for r in results if r[0] == k) for k in sorted(set(r[0] for r in results))})
